@@ -1,0 +1,77 @@
+//go:build verif
+
+package dv
+
+import (
+	"github.com/named-data/ndnd/dv/nfdc"
+	"github.com/named-data/ndnd/dv/table"
+	"github.com/named-data/ndnd/dv/tlv"
+	enc "github.com/named-data/ndnd/std/encoding"
+)
+
+func (dv *Router) VerifInitSelf()                      { dv.rib.Set(dv.config.RouterName(), dv.config.RouterName(), 0) }
+func (dv *Router) VerifRib() *table.Rib                  { return dv.rib }
+func (dv *Router) VerifNeighbors() *table.NeighborTable  { return dv.neighbors }
+func (dv *Router) VerifPfx() *table.PrefixTable          { return dv.pfx }
+func (dv *Router) VerifAdvert() *tlv.Advertisement {
+	dv.mutex.Lock()
+	defer dv.mutex.Unlock()
+	return dv.rib.Advert()
+}
+
+// VerifFetch makes this router process the given advertisement of neighbour `from` reachable over `face`.
+func (dv *Router) VerifFetch(from enc.Name, face uint64, adv *tlv.Advertisement) {
+	dv.mutex.Lock()
+	ns := dv.neighbors.Get(from)
+	if ns == nil {
+		ns = dv.neighbors.Add(from)
+	}
+	ns.RecvPing(face, true)
+	ns.Advert = adv
+	dv.mutex.Unlock()
+	dv.ribUpdate(ns)
+}
+func (dv *Router) VerifDeadCheck()                  { dv.checkDeadNeighbors() }
+func (dv *Router) VerifFibUpdate()                  { dv.fibUpdate() }
+func (dv *Router) VerifDrainCmds() []nfdc.NfdMgmtCmd { return dv.nfdc.VerifDrain() }
+func (dv *Router) VerifAnnounce(n enc.Name) {
+	dv.mutex.Lock()
+	dv.pfx.Announce(n)
+	dv.mutex.Unlock()
+}
+func (dv *Router) VerifWithdraw(n enc.Name) {
+	dv.mutex.Lock()
+	dv.pfx.Withdraw(n)
+	dv.mutex.Unlock()
+}
+
+// VerifPing refreshes the last-seen time of a known neighbour.
+func (dv *Router) VerifPing(from enc.Name, face uint64) {
+	dv.mutex.Lock()
+	defer dv.mutex.Unlock()
+	if ns := dv.neighbors.Get(from); ns != nil {
+		ns.RecvPing(face, true)
+	}
+}
+
+// VerifRegister attaches the router's Interest handlers (as Start does).
+func (dv *Router) VerifRegister() error { return dv.register() }
+
+// VerifLearnSeq tells this router that `node` has published up to `seq` (what prefix sync would report).
+func (dv *Router) VerifLearnSeq(node enc.Name, seq uint64) {
+	dv.mutex.Lock()
+	dv.pfx.GetRouter(node).Latest = seq
+	dv.mutex.Unlock()
+	go dv.prefixDataFetch(node)
+}
+
+// VerifPrefixesOf returns the prefixes this router believes `node` announces, and Known/Latest.
+func (dv *Router) VerifPrefixesOf(node enc.Name) (names []enc.Name, known uint64, latest uint64) {
+	dv.mutex.Lock()
+	defer dv.mutex.Unlock()
+	r := dv.pfx.GetRouter(node)
+	for _, p := range r.Prefixes {
+		names = append(names, p.Name)
+	}
+	return names, r.Known, r.Latest
+}
